@@ -27,7 +27,7 @@ def partition_column(draw, name, kinds=("int", "float", "bool", "datetime", "tex
     if kind == "int":
         col["sub"] = draw(st.sampled_from(["int64", "int64", "int32", "int8", "uint16"]))
         lo = 0 if col["sub"].startswith("u") else -3
-        col["pool"] = draw(st.lists(st.integers(lo, 12), min_size=1, max_size=4, unique=True))
+        col["pool"] = draw(st.lists(st.integers(lo, 12), min_size=draw(st.sampled_from([1, 2, 2])), max_size=4, unique=True))
     elif kind == "float":
         col["sub"] = "float64"
         col["pool"] = draw(st.lists(st.sampled_from([0.5, 1.0, -2.25, 1e5, 0.7, 100.0, 3.0, -0.5, 2.5]),
@@ -46,7 +46,7 @@ def partition_column(draw, name, kinds=("int", "float", "bool", "datetime", "tex
                                     min_size=1, max_size=4, unique=True))
     elif kind == "text":
         col["sub"] = draw(st.sampled_from(["object", "object", "str"]))
-        col["pool"] = draw(st.lists(SAFE_TEXT, min_size=1, max_size=4, unique=True))
+        col["pool"] = draw(st.lists(SAFE_TEXT, min_size=draw(st.sampled_from([1, 2, 2])), max_size=4, unique=True))
         if nulls and draw(st.integers(0, 4)) == 0:
             null = draw(frames.null_spec(True, ["some", "first_only", "last_only"]))
     else:
